@@ -120,6 +120,13 @@ EXTRA6 = {
  "C18": "; dep5 layout lines and synopsis-less License fields",
  "C19": "; non-ASCII identifiers; licences already provided under another extension or in a subdirectory",
 }
+EXTRA7 = {
+ "C08": "; token Y (the closing line of the header comment goes on with code and another comment); covered files named like table entries in another letter case (*.LICENSE)",
+ "C10": "; a template holding a closed ignore block; values with any of the 10 line-boundary characters of str.splitlines(); --merge-copyrights after 1..3 annotated years x 10 x 10 prefixes, run three times",
+ "C16": "; named pipes / directories at 7 names the tool opens by name x 5 commands as real processes with a time limit; expressions nested up to 380 levels",
+ "C17": "; REUSE.toml as a named pipe; an exception or a project that no longer loads after a failed conversion is a violation",
+ "C19": "; six local file-system failures (ENOTDIR, EISDIR, EFBIG by RLIMIT_FSIZE, failing open) with batch continuation and no partial file; a working directory unrelated to a root called LICENSES",
+}
 EXTRA = {
  "C05": "; CLI plumbing slice: 39 globs x REUSE.toml at ./, d/, d/e/ over a tree with prefix-sharing sibling directories (dd/, d2/, d-e/, d/e2/)",
  "C06": "; eleven trees over the whole bundled SPDX list (used and/or provided x txt, md, no extension, subdirectory, ID+.txt)",
@@ -140,7 +147,7 @@ def main():
     for pid in props:
         if pid in CHECKS and os.path.exists(f"{V}/mc/checks/{pid.lower()}.py"):
             cat, tech, text, note, ref = CHECKS[pid]
-            text += EXTRA.get(pid, "") + EXTRA4.get(pid, "") + EXTRA5.get(pid, "") + EXTRA6.get(pid, "")
+            text += EXTRA.get(pid, "") + EXTRA4.get(pid, "") + EXTRA5.get(pid, "") + EXTRA6.get(pid, "") + EXTRA7.get(pid, "")
             checks.append({
                 "property_id": pid,
                 "quick_cmd": f"/venv/bin/python -m mc.run {pid} --tier quick",
